@@ -175,6 +175,11 @@ def h_equal(nr, nc, route, accs=ACCESSORS):
     touch(Bt, acc_b, a)
     sig = dict(route=route, a_explicit_zero=int(a.info['explicit_zero']))
     note('accessors', [acc_a, acc_b])
+    exported = False
+    if (route == 'explicit-zero' or a.info['explicit_zero']) and a.obs_ids and a.samp_ids and flag('export-before-compare'):
+        # exports must not depend on whether == (which eliminates stored zeros) happened to run earlier
+        _exports_agree(A, Bt, sig, with_hdf5=True)
+        exported = True
     r1, e1 = call(lambda: A == Bt)
     r2, e2 = call(lambda: Bt == A)
     if e1 is not None or e2 is not None:
@@ -215,9 +220,9 @@ def h_equal(nr, nc, route, accs=ACCESSORS):
         fail('eq:after-queries', '', **sig)
     same_table('eq:content', observe(Bt), a, type_=True, **sig)
     # tables that compare equal export the same IDs, values and metadata
-    if not a.samp_ids or not a.obs_ids:
+    if not a.samp_ids or not a.obs_ids or exported:
         return
-    _exports_agree(A, Bt, sig, with_hdf5=(len(accs) == len(ACCESSORS)))
+    _exports_agree(A, Bt, sig, with_hdf5=(len(accs) == len(ACCESSORS) or route == 'explicit-zero'))
 
 
 DIFFS = ['value', 'value-to-zero', 'zero-to-value', 'obs-id', 'samp-id', 'obs-order', 'samp-order', 'md-entry', 'md-missing', 'type']
@@ -291,7 +296,7 @@ def jobs(tier):
     shapes = [(2, 2)] if tier == 'quick' else [(2, 2), (2, 3), (3, 2)]
     for nr, nc in shapes:
         for r in ROUTES:
-            out.append(('equal', (nr, nc, r) + ((['none', 'nnz', 'data-sample', 'eq-self'],) if tier == 'quick' else ())))
+            out.append(('equal', (nr, nc, r) + ((['none', 'nnz', 'data-sample'],) if tier == 'quick' else ())))
         for d in DIFFS:
             out.append(('unequal', (nr, nc, d)))
     return out
